@@ -162,8 +162,7 @@ Definition converges_codes (d : devs) (sh : shape) (I : image) (tr : list event)
                  if forallb (action_consistent fin) (all_objs sh) then 0 else 1;
                  if forallb (times_ordered d fin) (all_objs sh) then 0 else 1])
       ++ match deferred_missing d sh fin with [] => [] | _ :: _ => [14] end
-      ++ (if determined && negb (status_eqb (cst fin OPlan) verdict)
-             && negb (dev_R7 d && gap_image sh (dimg_of_image I)) then [15] else [])
+      ++ (if determined && negb (status_eqb (cst fin OPlan) verdict) then [15] else [])
   end.
 
 Definition mon_converges (d : devs) (sh : shape) (I : image) (tr : list event) (verdict : status) (determined : bool) : bool :=
